@@ -655,24 +655,68 @@ def table_d_messages(seed, n):
     = sparse random bits (so that delayed replication factors stay small), uncompressed, one subset.
     No ground truth - programs for the differential oracles (compiled vs interpreted, history vs fresh)."""
     rng = random.Random(seed)
-    vs = [v for v in bufrgen.table_versions() if v >= 19]
     out = []
-    for i in range(n):
-        v = rng.choice(vs)
-        _b, d = bufrgen.load_tables(v)
-        sid = rng.choice(sorted(d))
-        p1 = rng.choice([0.0, 0.02, 0.06])
-        length = rng.choice([400, 1500, 3000])
-        data = bytes(sum((1 << k) for k in range(8) if rng.random() < p1) for _ in range(length))
-        spec = {'edition': rng.choice([3, 4]), 'version': v, 'local_version': 0, 'centre': 0, 'subcentre': 0,
-                'category': 0, 'subcategory': 0, 'local_subcategory': 0, 'update': 0, 'date': [2021, 2, 3, 4, 5, 6],
-                'sec2': None, 'pads': {}, 'compressed': False, 'observed': True, 'raw_ids': [sid],
-                'raw_data': data.hex(), 'nsub': 1}
-        msg, _t = bufrgen.write_message(spec)
-        if msg.find(b'BUFR', 1) < 0 and len(msg) <= MAX_MSG:
-            out.append({'ref': 'tabled:%d:%d:v%d:%06d' % (seed, i, v, sid), 'hex': msg.hex(), 'src': 'operator',
-                        'opkind': 'table-d-sequence'})
+    if n < 0:
+        # the complete sweep: every DISTINCT (sequence id, full expansion with element definitions) of
+        # every bundled Table D of versions >= 19, each with three data contents (all-zero, sparse, less
+        # sparse) kept as one twin group, so that one compiled template runs on all three
+        progs = distinct_table_d_programs()
+        todo = [(v, sid, [0.0, 0.02, 0.06]) for (v, sid) in progs]
+    else:
+        vs = [v for v in bufrgen.table_versions() if v >= 19]
+        todo = []
+        for i in range(n):
+            v = rng.choice(vs)
+            _b, d = bufrgen.load_tables(v)
+            todo.append((v, rng.choice(sorted(d)), [rng.choice([0.0, 0.02, 0.06])]))
+    for i, (v, sid, p1s) in enumerate(todo):
+        for p1 in p1s:
+            length = rng.choice([400, 1500, 3000])
+            if n < 0 and p1 == 0.0:
+                length = 5800           # every sequence fits when all replication factors are zero
+            data = bytes(sum((1 << k) for k in range(8) if rng.random() < p1) for _ in range(length))
+            spec = {'edition': rng.choice([3, 4]), 'version': v, 'local_version': 0, 'centre': 0, 'subcentre': 0,
+                    'category': 0, 'subcategory': 0, 'local_subcategory': 0, 'update': 0, 'date': [2021, 2, 3, 4, 5, 6],
+                    'sec2': None, 'pads': {}, 'compressed': False, 'observed': True, 'raw_ids': [sid],
+                    'raw_data': data.hex(), 'nsub': 1}
+            msg, _t = bufrgen.write_message(spec)
+            if msg.find(b'BUFR', 1) < 0 and len(msg) <= MAX_MSG:
+                ent = {'ref': 'tabled:%d:%d:v%d:%06d%s' % (seed, i, v, sid, ':p%d' % int(p1 * 100) if n < 0 else ''),
+                       'hex': msg.hex(), 'src': 'operator', 'opkind': 'table-d-sequence'}
+                if n < 0:
+                    ent['twin'] = 'dt%d:%06d' % (v, sid)
+                out.append(ent)
     return out
+
+
+_TABLE_D_PROGRAMS = []
+
+
+def distinct_table_d_programs():
+    """[(version, sequence id)]: one representative (lowest version) per distinct full expansion"""
+    if not _TABLE_D_PROGRAMS:
+        import json as _json
+        seen = {}
+
+        def expand(d, b, sid, depth=0):
+            o = []
+            for x in d.get(sid, []):
+                f = x // 100000
+                if f == 3:
+                    o.append(['S', x, expand(d, b, x, depth + 1) if depth < 8 else []])
+                elif f == 0:
+                    o.append(['E', x, list(b.get(x, (None,) * 5)[1:])])
+                else:
+                    o.append(['O', x])
+            return o
+        for v in [v for v in bufrgen.table_versions() if v >= 19]:
+            b, d = bufrgen.load_tables(v)
+            for sid in sorted(d):
+                key = (sid, _json.dumps(expand(d, b, sid)))
+                if key not in seen:
+                    seen[key] = (v, sid)
+        _TABLE_D_PROGRAMS.extend(sorted(seen.values()))
+    return _TABLE_D_PROGRAMS
 
 
 def _compress_variant(arg):
